@@ -13,7 +13,7 @@ from ..harness import digest, quiet
 from .C12 import ref_partition, ALPHA
 
 MANIFEST = {
-    'text': 'Held on every call executed: get_cycle_vector(return_good=True, mask=...) , is_good and Cycles(...).metrics["is_good"] are compared with the documented predicate on EVERY phase sequence of length 2..6 (quick) / 2..8 (thorough) over a 5-value alphabet x phase_edge in {0.05, pi/12, 0.5, pi/2}, with boolean masks {none, random 5% false, one false block}, and on seeded synthetic phases (clean, noisy, reversing) with masks; containers are built with cache on and off. Exhaustive at the stated bound, sampling beyond.',
+    'text': 'Held on every call executed: get_cycle_vector(return_good=True, mask=...) , is_good and Cycles(...).metrics["is_good"] are compared with the documented predicate on EVERY phase sequence of length 2..6 (quick) / 2..8 (thorough) over a 5-value alphabet x phase_edge in {0.05, pi/12, 0.5, pi/2}, with boolean masks {none, random 5% false, one false block}, and on seeded synthetic phases (clean, noisy, reversing) with masks; containers are built with cache on and off. Exhaustive at the stated bound, sampling beyond. Schedules: the same deterministic calls made from 4-5 threads of one interpreter at once (thread switch every 1-10 microseconds) must reproduce the results obtained alone. Returned check vectors are held untouched and re-read after later calls. A quarter of the shards run in a session that turns Deprecation/Future/UserWarnings into errors.',
     'note': 'Trusted: numpy. The optional control-point check (waveform argument) is not part of the property and not exercised.',
     'technique': 'reference-predicate oracle on the real cycle labelling / is_good / container flag, exhaustive small-scope enumeration + seeded random',
 }
